@@ -24,6 +24,20 @@ theorem visitTip_validated (st : GVL) (v : Vertex) (hv : v ∈ st.book.verts) (b
       intro r h; simp only [Option.some.injEq] at h; subst h
       exact ⟨st.book, hs, hv, hok⟩
 
+theorem gvlStep_validated (st : GVL) (h : Hash) (b0 : Book) (hs : Steps b0 st.book)
+    (hl : ∀ l, st.left = some l → ValidatedIn b0 l) (hr : ∀ r, st.right = some r → ValidatedIn b0 r) :
+    (∀ l, (gvlStep st h).left = some l → ValidatedIn b0 l) ∧
+    (∀ r, (gvlStep st h).right = some r → ValidatedIn b0 r) := by
+  unfold gvlStep
+  split
+  · exact ⟨hl, hr⟩
+  · split
+    · exact ⟨hl, hr⟩
+    · rename_i v hv
+      split
+      · exact visitTip_validated st v (getVertex_mem hv).1 b0 hs hl hr
+      · exact ⟨hl, hr⟩
+
 /-- Both tips selected by `getValidLeaves` passed `validateLeaf` during the call. -/
 theorem getValidLeaves_validated (b : Book) (order : List Hash) :
     (∀ l, (b.getValidLeaves order).left = some l → ValidatedIn b l) ∧
@@ -31,30 +45,16 @@ theorem getValidLeaves_validated (b : Book) (order : List Hash) :
   unfold getValidLeaves
   suffices h : ∀ (st : GVL), Steps b st.book →
       (∀ l, st.left = some l → ValidatedIn b l) → (∀ r, st.right = some r → ValidatedIn b r) →
-      (∀ l, (order.foldl (fun (st : GVL) h =>
-        if st.left.isSome && st.right.isSome then st else
-        match st.book.getVertex h with
-        | none => st
-        | some v => visitTip st v) st).left = some l → ValidatedIn b l) ∧
-      (∀ r, (order.foldl (fun (st : GVL) h =>
-        if st.left.isSome && st.right.isSome then st else
-        match st.book.getVertex h with
-        | none => st
-        | some v => visitTip st v) st).right = some r → ValidatedIn b r) from
+      (∀ l, (order.foldl gvlStep st).left = some l → ValidatedIn b l) ∧
+      (∀ r, (order.foldl gvlStep st).right = some r → ValidatedIn b r) from
     h { book := b } (Steps.refl b) (by intro l h; cases h) (by intro r h; cases h)
   induction order with
   | nil => intro st _ hl hr; exact ⟨hl, hr⟩
   | cons x xs ih =>
     intro st hs hl hr
     simp only [List.foldl_cons]
-    split
-    · exact ih st hs hl hr
-    · split
-      · exact ih st hs hl hr
-      · rename_i v hv
-        have hmem := (getVertex_mem hv).1
-        obtain ⟨h1, h2⟩ := visitTip_validated st v hmem b hs hl hr
-        exact ih (visitTip st v) (hs.trans (steps_visitTip st v hmem)) h1 h2
+    obtain ⟨h1, h2⟩ := gvlStep_validated st x b hs hl hr
+    exact ih (gvlStep st x) (hs.trans (steps_gvlStep st x)) h1 h2
 
 /-- A tip that fails validation is gone afterwards, together with its index entry. -/
 theorem failing_tip_dropped (st : GVL) (v : Vertex) (e : Err) (h : st.book.validateLeaf v = .error e) :
